@@ -62,7 +62,7 @@ pub fn run(ctx: &mut Ctx) {
     let draws = ctx.n(30, 600);
     let mut case: u64 = 0;
     let lists: Vec<Vec<String>> = vec![vec![], vec!["INTEGER.+".to_string()], names.clone()];
-    let bindsets: Vec<Vec<&str>> = vec![vec![], vec!["only"], vec!["a", "b", "c"]];
+    let bindsets: Vec<Vec<&str>> = vec![vec![], vec!["only"], vec!["a", "b", "c"], vec!["two words", "x y z"]];
     // (1) exact size
     let mut sizes: Vec<usize> = (1..=80).collect();
     sizes.extend([235, 1034]);
@@ -144,6 +144,49 @@ pub fn run(ctx: &mut Ctx) {
                     }
                     ctx.rec.cover(&format!("size|{}|l{}|b{}|p{}", n, li, bi, pnew));
                 }
+            }
+        }
+    }
+    // (1b) million-point programs (the recursion of the generator gets deep only there; a depth
+    // guard or a narrow counter inside it shows as lost points): exact size, counted on the Item itself
+    {
+        fn count(it: &pushr::push::item::Item, depth: usize, maxd: &mut usize) -> usize {
+            *maxd = (*maxd).max(depth);
+            match it {
+                pushr::push::item::Item::List { items } => {
+                    let mut n = 1;
+                    for k in 0..items.size() {
+                        n += count(items.get(k).unwrap(), depth + 1, maxd);
+                    }
+                    n
+                }
+                _ => 1,
+            }
+        }
+        let huge: &[usize] = if ctx.quick() { &[1 << 20, 1 << 21] } else { &[1 << 20, 1 << 21, 1 << 22, 3_000_000] };
+        for n in huge.iter() {
+            for d in 0..ctx.n(2, 6) {
+                case += 1;
+                if !ctx.mine(case) || ctx.is_fuzz() || ctx.profile != "release" {
+                    continue;
+                }
+                let st = PushState::new();
+                let gcache = InstructionCache::new(names.clone());
+                ctx.rec.case_marker(case, &format!("random_code_with_size({}) draw {}", n, d));
+                ctx.rec.count("draws", 1);
+                match guarded(|| CodeGenerator::random_code_with_size(&st, &gcache, *n)) {
+                    Err(p) => ctx.rec.violation("C12", &format!("random_code_with_size|panic|{}", panic_sig(&p)), &format!("{} ; size {}", p, n), ""),
+                    Ok(item) => {
+                        let mut maxd = 0;
+                        let got = count(&item, 0, &mut maxd);
+                        ctx.rec.max("max_generated_nesting", maxd as u64);
+                        ctx.rec.max("max_generated_points", got as u64);
+                        if got != *n {
+                            ctx.rec.violation("C12", "random_code_with_size|wrong-size", &format!("requested {} points, got {} (nesting depth {})", n, got, maxd), "");
+                        }
+                    }
+                }
+                ctx.rec.cover(&format!("huge|{}", n));
             }
         }
     }
